@@ -1,0 +1,95 @@
+//go:build verif
+// +build verif
+
+package txcache
+
+import "sort"
+
+// This file is compiled only with the build tag `verif` (model-based verification harness in /verif).
+// It only *exports* internal state and lets the harness run the two halves of SelectTransactions
+// (selection, then the sweep that SelectTransactions starts in a goroutine) as separate synchronous steps.
+
+// VerifSender is a copy of the state of one sender's list.
+type VerifSender struct {
+	Sender              string
+	TxHashes            [][]byte // in list order
+	AccountNonceKnown   bool
+	AccountNonce        uint64
+	NumFailedSelections int64
+	Sweepable           bool
+	Score               uint32
+	InScoreChunks       bool
+	TotalBytes          int64
+}
+
+// VerifSweepEntry is one entry of the list of senders collected for sweeping.
+type VerifSweepEntry struct {
+	Sender   string
+	Live     bool     // the entry is the list object currently held by the senders map
+	TxHashes [][]byte // current content of the (possibly dead) list object
+}
+
+// VerifSenders enumerates the senders map (sorted by sender).
+func (cache *TxCache) VerifSenders() []VerifSender {
+	keys := cache.txListBySender.backingMap.Keys()
+	sort.Strings(keys)
+
+	sorted := make(map[string]struct{})
+	for _, key := range cache.txListBySender.backingMap.KeysSorted() {
+		sorted[key] = struct{}{}
+	}
+
+	result := make([]VerifSender, 0, len(keys))
+	for _, key := range keys {
+		list, ok := cache.txListBySender.getListForSender(key)
+		if !ok {
+			continue
+		}
+		_, inScoreChunks := sorted[key]
+		result = append(result, VerifSender{
+			Sender:              key,
+			TxHashes:            list.getTxHashes(),
+			AccountNonceKnown:   list.accountNonceKnown.IsSet(),
+			AccountNonce:        list.accountNonce.Get(),
+			NumFailedSelections: list.numFailedSelections.Get(),
+			Sweepable:           list.sweepable.IsSet(),
+			Score:               list.getLastComputedScore(),
+			InScoreChunks:       inScoreChunks,
+			TotalBytes:          list.totalBytes.Get(),
+		})
+	}
+	return result
+}
+
+// VerifSweepList returns the senders collected for sweeping by the selections done so far.
+func (cache *TxCache) VerifSweepList() []VerifSweepEntry {
+	cache.sweepingMutex.Lock()
+	defer cache.sweepingMutex.Unlock()
+
+	result := make([]VerifSweepEntry, 0, len(cache.sweepingListOfSenders))
+	for _, list := range cache.sweepingListOfSenders {
+		current, ok := cache.txListBySender.getListForSender(list.sender)
+		result = append(result, VerifSweepEntry{
+			Sender:   list.sender,
+			Live:     ok && current == list,
+			TxHashes: list.getTxHashes(),
+		})
+	}
+	return result
+}
+
+// VerifSelect is the synchronous part of SelectTransactions.
+func (cache *TxCache) VerifSelect(numRequested int, batchSizePerSender int) []*WrappedTransaction {
+	return cache.doSelectTransactions(numRequested, batchSizePerSender)
+}
+
+// VerifSweep is the part of SelectTransactions that runs in a goroutine (without the diagnosis).
+func (cache *TxCache) VerifSweep() {
+	cache.sweepSweepable()
+}
+
+// VerifGracePeriod returns the bounds of the grace period (number of failed selections during which a sender with an
+// initial nonce gap still gets one transaction selected).
+func VerifGracePeriod() (int64, int64) {
+	return senderGracePeriodLowerBound, senderGracePeriodUpperBound
+}
